@@ -34,6 +34,7 @@ func main() {
 		g(e, *tier)
 		genWide(e, *prop, *tier)
 		genScale(e, *prop, *tier)
+		genKeys(e, *prop, *tier)
 		e.close()
 		fmt.Printf("cases=%d\n", e.n)
 	case "replay":
